@@ -467,6 +467,37 @@ func c10Generate(c *mon.Ctx) {
 		}
 	}
 
+	// histories whose scalar variables start from every Montgomery-structured value (stored limbs small, single limb, adjacent
+	// to one, ...) and in which a third of the steps are scalar operations with those variables as operands (Pow in particular)
+	ms := gen.MontStructured(oracle.N)
+	for i := 0; i+c10NS <= len(ms); i += c10NS {
+		cs := c10GenHistory(mr, pool, 30)
+
+		for j := 0; j < c10NS; j++ {
+			cs.InitS[j] = fmt.Sprintf("%x", ms[i+j].X)
+		}
+
+		for k := 0; k < len(cs.Steps); k += 3 {
+			op := []string{"s.pow", "s.mul", "s.add", "s.pow", "s.sub", "s.invert", "s.square"}[(k/3)%7]
+			cs.Steps[k] = c10Step{Op: op, R: (k / 3) % c10NS, A: (k/3 + 1 + i) % c10NS}
+		}
+
+		c.Structured(func() any { return cs })
+	}
+
+	// hashing steps whose message length runs through 0..520 under a 49-byte tag (60 steps per history)
+	for base := 0; base <= 520; base += 60 {
+		cs := c10GenHistory(mr, pool, 2)
+		cs.Steps = cs.Steps[:0]
+
+		for l := base; l < base+60 && l <= 520; l++ {
+			op := []string{"e.h2g", "s.h2s", "e.e2g"}[l%3]
+			cs.Steps = append(cs.Steps, c10Step{Op: op, R: l % c10NS, A: -1, Lit: mon.H(mr.Bytes(l)), Lit2: mon.H([]byte("QUUX-V01-CS02-with-secp256k1_XMD:SHA-256_SSWU_RO_"))})
+		}
+
+		c.Structured(func() any { return cs })
+	}
+
 	sr := c.SharedRng("steered-histories")
 	stride := c.N(1, 1)
 
